@@ -1,5 +1,5 @@
 (* Proofs/SearchDischarge.v -- the clauses of the contract search_ok (Proofs/PipeSpec.v) that
-   hold BY THEOREM for the concrete metadata searches  E := engine_search U meta_table :
+   hold BY THEOREM for the concrete metadata searches  E := engine_search UM meta_table :
    soundness of the engine for the declarative semantics with captures (Regex/DeclCapSound.v)
    plus kernel-run static analyses of the regenerated ASTs (Gen/MetaRegex.v).  What remains of
    search_ok is search_residual (two clauses); post_short_total is discharged. *)
@@ -13,7 +13,7 @@ Close Scope Z_scope.
 Close Scope N_scope.
 Open Scope nat_scope.
 
-Definition E : pat -> str -> option mres := engine_search U meta_table.
+Definition E : pat -> str -> option mres := engine_search UM meta_table.
 
 (* ---- group names -> group numbers ---- *)
 Definition gnum (name : str) (names : list (str * nat)) : option nat :=
@@ -106,22 +106,22 @@ Qed.
 
 (* ---- 6. the discharged clauses ---- *)
 Theorem E_mres_ok : forall p w m, E p w = Some m -> mres_ok w m.
-Proof. intros p w m H. exact (engine_mres_ok U meta_table p w m H). Qed.
+Proof. intros p w m H. exact (engine_mres_ok UM meta_table p w m H). Qed.
 
 Lemma E_inv : forall p w m, E p w = Some m ->
   exists i j c, m = to_mres (snd (meta_table p)) (i, j, c) /\
-                MC U false w (fst (meta_table p)) i [] j c.
-Proof. intros p w m H. exact (engine_search_MC_inv U meta_table p w m H). Qed.
+                MC UM false w (fst (meta_table p)) i [] j c.
+Proof. intros p w m H. exact (engine_search_MC_inv UM meta_table p w m H). Qed.
 
 Lemma E_fwd_inv : forall p w m, fwd_pat p = true -> E p w = Some m ->
   exists j c, m = to_mres (snd (meta_table p)) (0, j, c) /\
-              MC U false w (fst (meta_table p)) 0 [] j c.
+              MC UM false w (fst (meta_table p)) 0 [] j c.
 Proof.
   intros p w m Hp H. destruct (E_inv p w m H) as [i [j [c [Hm HMC]]]].
   destruct (fwd_bol p Hp) as [r Hr].
   assert (Hi : i = 0).
-  { pose proof (MC_M U false w _ _ _ _ _ HMC) as HM. rewrite Hr in HM.
-    exact (bol_start U false w r i j HM). }
+  { pose proof (MC_M UM false w _ _ _ _ _ HMC) as HM. rewrite Hr in HM.
+    exact (bol_start UM false w r i j HM). }
   subst i. exists j, c. split; assumption.
 Qed.
 
@@ -136,7 +136,7 @@ Proof.
   intros p w m Hp H a b Hg. destruct (E_fwd_inv p w m Hp H) as [j [c [Hm HMC]]]. subst m.
   rewrite gspan_to_mres in Hg.
   destruct (fwd_pin_starts p Hp) as [n [Hn Hs]]. rewrite Hn in Hg.
-  apply (starts_at_begin_sound U false w n _ 0 [] j c Hs HMC c a b); [|exact Hg].
+  apply (starts_at_begin_sound UM false w n _ 0 [] j c Hs HMC c a b); [|exact Hg].
   symmetry. apply app_nil_r.
 Qed.
 
@@ -146,7 +146,7 @@ Proof.
   intros w m H. destruct (E_inv PShortAnte w m H) as [i [j [c [Hm HMC]]]]. subst m.
   cbn [meta_table fst snd] in HMC |- *.
   destruct short_ante_sets as [Hn Hs].
-  destruct (always_sets_sound U false w 1 _ i [] j c Hs HMC) as [pre [[a b] [Hpre Hg]]].
+  destruct (always_sets_sound UM false w 1 _ i [] j c Hs HMC) as [pre [[a b] [Hpre Hg]]].
   rewrite app_nil_r in Hpre. subst pre.
   exists a, b. rewrite gspan_to_mres, Hn. exact Hg.
 Qed.
@@ -156,8 +156,8 @@ Proof.
   intros w. unfold E. rewrite engine_search_not_year by discriminate.
   cbn [meta_table fst snd].
   destruct post_short_shape as [r [Hr Ha]]. rewrite Hr.
-  pose proof (search_bol_total U false w r Ha) as Ht.
-  destruct (search U false w (Cat Bol r)) as [res|]; [discriminate|contradiction].
+  pose proof (search_bol_total UM false w r Ha) as Ht.
+  destruct (search UM false w (Cat Bol r)) as [res|]; [discriminate|contradiction].
 Qed.
 
 (* ---- 7. what remains of search_ok ---- *)
